@@ -23,6 +23,7 @@ type Gen struct {
 	subjects []string
 	sessions []int // public session numbers seen
 	tagsUsed []string
+	idxTags  map[string][]string // repo -> tags that were pushed pointing to an index
 	store    string
 }
 
@@ -34,6 +35,7 @@ func (g *Gen) newHistory(conf string) {
 		g.manLen = map[string]int{}
 	}
 	g.subjects, g.sessions = nil, nil
+	g.idxTags = map[string][]string{}
 	g.tagsUsed = []string{"t1", "t2", "t3"}
 	g.repos = []string{"r1", "r2", "r1/sub"}
 	g.emit("NEW " + conf)
@@ -234,6 +236,9 @@ func (g *Gen) pushManifest(repo string) {
 	line += " body=" + name
 	out := g.emit(line)
 	if strings.HasPrefix(out, "201 ") {
+		if kind == "index" && !strings.Contains(ref, ":") {
+			g.idxTags[repo] = append(g.idxTags[repo], ref)
+		}
 		g.manIn[repo] = append(g.manIn[repo], name)
 		stored := ct
 		if stored == "" {
@@ -250,6 +255,13 @@ func (g *Gen) pushManifest(repo string) {
 }
 
 func (g *Gen) readManifest(repo string) {
+	// a tagged index read with an Accept list that lacks the index types: the child fall-back
+	if len(g.idxTags[repo]) > 0 && g.r.Intn(3) == 0 {
+		acc := g.pick([]string{"ocim", "dockm", "ocim,dockm", "dockm,ocim", "other", "ocim,other"})
+		op := g.pick([]string{"MGET", "MGET", "MHEAD"})
+		g.emit(fmt.Sprintf("%s %s %s accept=%s", op, repo, g.pick(g.idxTags[repo]), acc))
+		return
+	}
 	var ref string
 	if len(g.manIn[repo]) > 0 && g.r.Intn(2) == 0 {
 		ref = g.pick([]string{"sha256:", "sha256:", "sha512:"}) + g.pick(g.manIn[repo])
@@ -262,8 +274,8 @@ func (g *Gen) readManifest(repo string) {
 		op = "MHEAD"
 	}
 	line := fmt.Sprintf("%s %s %s accept=%s", op, repo, ref, strings.Join(acc, ","))
-	if len(acc) > 0 && g.r.Intn(6) == 0 {
-		line += " accform=" + g.pick([]string{"joined", "param"})
+	if len(acc) > 0 && g.r.Intn(4) == 0 {
+		line += " accform=" + g.pick([]string{"joined", "param", "bare", "bare"})
 	}
 	if g.r.Intn(8) == 0 {
 		line += " range=" + g.pick([]string{"0-3", "2-", "-4", "5-9", "0-100000", "100000-100001"})
@@ -271,8 +283,34 @@ func (g *Gen) readManifest(repo string) {
 	g.emit(line)
 }
 
+// nestedIndex pushes an image by digest, an index listing it and an index listing that index (under a tag)
+func (g *Gen) nestedIndex(repo string) {
+	leaf := g.simpleImage(repo)
+	if out := g.emit(fmt.Sprintf("MPUT %s sha256:%s ct=ocim body=%s", repo, leaf, leaf)); !strings.HasPrefix(out, "201 ") {
+		return
+	}
+	g.manIn[repo] = append(g.manIn[repo], leaf)
+	g.manMT[leaf] = "ocim"
+	inner := g.defBody("index", []string{"mt=ocii", fmt.Sprintf("children=ocim/sha256:%s/%d", leaf, g.manLen[leaf]), "subj=", "at=", "ann=k=in" + strconv.Itoa(g.bodyN)})
+	ref := g.pick([]string{"sha256:" + inner, "sha256:" + inner, "t2"})
+	if out := g.emit(fmt.Sprintf("MPUT %s %s ct=ocii body=%s", repo, ref, inner)); !strings.HasPrefix(out, "201 ") {
+		return
+	}
+	g.manIn[repo] = append(g.manIn[repo], inner)
+	g.manMT[inner] = "ocii"
+	outer := g.defBody("index", []string{"mt=ocii", fmt.Sprintf("children=ocii/sha256:%s/%d", inner, g.manLen[inner]), "subj=", "at=", "ann=k=out" + strconv.Itoa(g.bodyN)})
+	if out := g.emit(fmt.Sprintf("MPUT %s %s ct=ocii body=%s", repo, g.pick([]string{"t1", "t3"}), outer)); strings.HasPrefix(out, "201 ") {
+		g.manIn[repo] = append(g.manIn[repo], outer)
+		g.manMT[outer] = "ocii"
+	}
+}
+
 func (g *Gen) step() {
 	repo := g.repo()
+	if g.r.Intn(25) == 0 {
+		g.nestedIndex(repo)
+		return
+	}
 	switch g.r.Intn(16) {
 	case 0, 1, 2:
 		g.pushBlob(repo)
@@ -403,8 +441,8 @@ func (g *Gen) uploadStep(offs map[int]int, recv map[int]string) {
 				line += " digest=" + algo() + ":" + c + " body=" + c
 			}
 			g.noteSession(g.emit(line))
-		case 2: // with algorithm
-			g.noteSession(g.emit("UPOST " + repo + " algo=" + g.pick([]string{"sha256", "sha384", "sha512", "md5", "sha1"})))
+		case 2, 3: // with algorithm
+			g.noteSession(g.emit("UPOST " + repo + " algo=" + g.pick([]string{"sha256", "sha384", "sha512", "sha512", "md5", "sha1"})))
 		default:
 			g.noteSession(g.emit("UPOST " + repo))
 		}
@@ -450,7 +488,8 @@ func (g *Gen) uploadStep(offs map[int]int, recv map[int]string) {
 			line = "UPUT " + repo + " " + sid + " state=" + g.pick([]string{strconv.Itoa(off + 1), "junk", ""})
 		}
 		// the declared digest: mostly the digest of what the generator believes was received + c
-		line += " digest=" + g.pick([]string{"sha256:" + full, "sha256:" + full, "sha256:" + full, "sha384:" + full, "sha512:" + full, "sha256:zz", "bad:1", ""})
+		line += " digest=" + g.pick([]string{"sha256:" + full, "sha256:" + full, "sha256:" + full, "sha384:" + full, "sha512:" + full, "sha256:zz", "sha512:zz", "sha384:zz",
+			"sha512:" + full + "x", "bad:1", ""})
 		if g.r.Intn(8) == 0 {
 			line += " cr=" + g.pick([]string{fmt.Sprintf("%d-%d", off, off+1), fmt.Sprintf("%d-%d", off+2, off+3)})
 		}
@@ -798,8 +837,12 @@ func (g *Gen) isolationStep(offs map[int]int, recv map[int]string) {
 	case 0, 1:
 		g.pushBlob(repo)
 	case 2: // mount from another repository
-		c := g.pick([]string{"c1", "c2", "l1", "zz"})
-		g.noteSession(g.emit("UPOST " + repo + " mount=sha256:" + c + " from=" + g.pick(append(append([]string{}, g.repos...), "../r1", "r1/../r2", "..", "r1/", "/r1"))))
+		c := g.pick([]string{"c1", "c2", "l1", "zz", "outsidesecret", "outsidesecret"})
+		g.noteSession(g.emit("UPOST " + repo + " mount=sha256:" + c + " from=" + g.pick(append(append([]string{}, g.repos...), "../r1", "r1/../r2", "..", "r1/", "/r1",
+			"../outside", "r1/../../outside", "a/../../outside", "r1/sub/../../../outside", "r2/../..//outside"))))
+		if c == "outsidesecret" && g.r.Intn(2) == 0 {
+			g.emit("BGET " + repo + " sha256:outsidesecret")
+		}
 	case 3: // read in another repository what was pushed here
 		if len(g.blobsIn[repo]) > 0 {
 			g.emit(g.pick([]string{"BGET", "BHEAD"}) + " " + other + " sha256:" + g.pick(g.blobsIn[repo]))
